@@ -17,8 +17,8 @@
    step).  Predicates named "beyond:..." are observations beyond the statements of C07 / C08, never violations. *)
 EXTENDS TraceIO, FiniteSets, SequencesExt
 
-VARIABLES l, TMv, TRv, wallet, arrived, heard, triedM, triedF, doneM, doneF
-vars == <<l, TMv, TRv, wallet, arrived, heard, triedM, triedF, doneM, doneF>>
+VARIABLES l, TMv, TRv, wallet, arrived, heard, triedM, triedF, doneM, doneF, ppool
+vars == <<l, TMv, TRv, wallet, arrived, heard, triedM, triedF, doneM, doneF, ppool>>
 
 A == INSTANCE NotarySvc
 
@@ -31,7 +31,7 @@ NormSend(e) == [kind |-> e.kind, main |-> e.main, req |-> e.req, h |-> e.h, nvb 
                 onchain |-> e.onchain, chm |-> ToSet(e.chm), chf |-> ToSet(e.chf), pool |-> ToSet(e.pool),
                 used |-> ToSet(e.used)]
 
-Init == l = 1 /\ TMv = <<>> /\ TRv = <<>> /\ wallet = {} /\ arrived = {} /\ heard = {} /\ triedM = {} /\ triedF = {} /\ doneM = {} /\ doneF = {}
+Init == l = 1 /\ TMv = <<>> /\ TRv = <<>> /\ wallet = {} /\ arrived = {} /\ heard = {} /\ triedM = {} /\ triedF = {} /\ doneM = {} /\ doneF = {} /\ ppool = {}
 
 StateFails(e) == A!JudgedStateFails(TRv, ToSet(e.mpm), ToSet(e.mpf), ToSet(e.chm), ToSet(e.chf), e.amt)
 
@@ -65,20 +65,20 @@ Step ==
        CASE e.event = "init" ->
               /\ TMv' = [i \in DOMAIN e.mains |-> NormMain(e.mains[i])]
               /\ TRv' = [i \in DOMAIN e.reqs |-> NormReq(e.reqs[i])]
-              /\ wallet' = ToSet(e.wallet) /\ arrived' = {} /\ heard' = {} /\ triedM' = {} /\ triedF' = {} /\ doneM' = {} /\ doneF' = {}
+              /\ wallet' = ToSet(e.wallet) /\ arrived' = {} /\ heard' = {} /\ triedM' = {} /\ triedF' = {} /\ doneM' = {} /\ doneF' = {} /\ ppool' = {}
          [] e.event = "sent" ->
               LET s == NormSend(e) IN
               /\ triedM' = IF s.kind = "main" THEN triedM \cup {s.main} ELSE triedM
               /\ triedF' = IF s.kind = "fb" THEN triedF \cup {s.req} ELSE triedF
               /\ doneM' = IF s.kind = "main" /\ e.ret THEN doneM \cup {<<e.gen, s.main>>} ELSE doneM
               /\ doneF' = IF s.kind = "fb" /\ e.ret THEN doneF \cup {s.req} ELSE doneF
-              /\ UNCHANGED <<TMv, TRv, wallet, arrived, heard>>
+              /\ UNCHANGED <<TMv, TRv, wallet, arrived, heard, ppool>>
               \* (MainBeforeNvb looks at the pooled requests this instance heard of whose fallback it has not handed over yet: once
               \* all fallbacks of an entry are handed over the service forgets the entry and a later request starts a new one)
               \* sends are recorded before the event of the step that caused them: the request pool at the time of the send
               \* (s.pool) already holds the request that has just arrived
               /\ Report(l, A!JudgedSendFails(TRv, s) \cup A!BeyondSendFails(TMv, TRv, arrived \cup s.pool, (s.pool \cap HeardAt(l)) \ doneF, s)
-                           \cup NameIf(A!Withdrawn(TRv, s), "beyond:Withdrawn") \cup NameIf(A!FallbackPooled(s), "beyond:FallbackPooled")
+                           \cup NameIf(A!Withdrawn(TRv, s), "beyond:Withdrawn") \cup NameIf(A!FallbackPooled(s, ppool), "beyond:FallbackPooled")
                            \* one service instance does not hand over a main transaction again that the node has taken from it
                            \cup NameIf(~(s.kind = "main" /\ <<e.gen, s.main>> \in doneM), "beyond:MainOnce"), [ev |-> e])
          [] e.event = "submit" ->
@@ -86,23 +86,27 @@ Step ==
               /\ arrived' = IF e.ok THEN arrived \cup {e.req} ELSE arrived
               /\ heard' = H
               /\ UNCHANGED <<TMv, TRv, wallet, triedM, triedF, doneM, doneF>>
+              /\ ppool' = ToSet(e.pool)
               /\ Report(l, StateFails(e) \cup MainDueFails(e, H), [ev |-> e])
          [] e.event = "block" ->
               LET H == IF Authorised(e) THEN heard ELSE {} IN
               /\ heard' = H
               /\ UNCHANGED <<TMv, TRv, wallet, arrived, triedM, triedF, doneM, doneF>>
+              /\ ppool' = ToSet(e.pool)
               /\ Report(l, StateFails(e) \cup NameIf(e.accepted, "Proposable")
                            \cup (IF e.accepted THEN MainDueFails(e, H) \cup FallbackDueFails(e, H) \cup NothingLostFails(e, H) ELSE {}),
                         [ev |-> e])
          [] e.event = "restart" ->
               /\ heard' = {}
               /\ UNCHANGED <<TMv, TRv, wallet, arrived, triedM, triedF, doneM, doneF>>
+              /\ ppool' = ToSet(e.pool)
               /\ Report(l, StateFails(e) \cup NothingLostFails(e, {}), [ev |-> e])
          [] e.event = "relay" ->
               /\ UNCHANGED <<TMv, TRv, wallet, arrived, heard, triedM, triedF, doneM, doneF>>
+              /\ ppool' = ToSet(e.pool)
               /\ Report(l, StateFails(e), [ev |-> e])
          [] e.event = "twin" ->
-              /\ UNCHANGED <<TMv, TRv, wallet, arrived, heard, triedM, triedF, doneM, doneF>>
+              /\ UNCHANGED <<TMv, TRv, wallet, arrived, heard, triedM, triedF, doneM, doneF, ppool>>
               /\ Report(l, NameIf(A!OrderIndependent(e.a, e.b), "beyond:OrderIndependent"), [ev |-> e])
 
 TraceSpec == Init /\ [][Step]_vars
